@@ -1597,6 +1597,8 @@ class Stage:
         """Evaluate expression at (N + 1) control points."""
         if hasattr(stage._method,"grid_control"):
             return stage._method.grid_control(self, expr, grid, include_first=include_first, include_last=include_last, transpose=transpose, refine=refine)
+        if refine!=1:
+            raise Exception("refine is not supported on grid='control' by this transcription method (use grid='integrator', or SplineMethod)")
         sub_expr = []
         ks = list(range(1, stage._method.N))
         if include_first:
